@@ -119,6 +119,8 @@ func diffCfg(ref, o *cfgObs) (string, string) {
 		return fmt.Sprintf("build|O%d/mods=%t/list=%t", o.Cfg.O, o.Cfg.LinkMods, o.Cfg.LinkList), fmt.Sprintf("builds under %s but not under %s:\n%s", ref.Cfg, o.Cfg, firstLines(o.BuildOut, 8))
 	case ref.Class == "timeout" && o.Class == "timeout":
 		return "", ""
+	case ref.Class == "resource-limit" || o.Class == "resource-limit":
+		return "", "" // the simulated heap gave up (unbounded growth): no statement about the program
 	case ref.Exit != o.Exit || ref.Class != o.Class:
 		return fmt.Sprintf("status|O%d/mods=%t/list=%t", o.Cfg.O, o.Cfg.LinkMods, o.Cfg.LinkList), fmt.Sprintf("%s: exit %d, %s — %s: exit %d, %s", ref.Cfg, ref.Exit, ref.Class, o.Cfg, o.Exit, o.Class)
 	case ref.Stdout != o.Stdout:
